@@ -57,6 +57,7 @@ def classes():
             d = render_data[Renderable]
             tag = render_args[Probe].tag
             z = render_args[Probe].z
+            u = render_args[Probe].u
             self.renders.append(
                 (d.frame_offset, d.seek_whence.name, tuple(d.size), d.duration if self.animated else None, tag, render_data.finalized)
             )
@@ -90,7 +91,11 @@ def classes():
             w, h = d.size
             # letter = frame number; alphabet = render arguments (a0: A-Z, a1: a-z,
             # z=-1: Greek capitals, z=-2: Cyrillic capitals - the two hash-colliding ints)
-            base = 0x391 if z == -1 else 0x410 if z == -2 else 65 if tag == "a0" else 97
+            # u = a list: Greek small letters, u = a dict: Cyrillic small letters - the two
+            # render-argument values that are UNHASHABLE (legal: hashability of render args is
+            # optional) and are built anew for every set_render_args(): equal, never identical
+            base = (0x3B1 if type(u) is list else 0x430 if type(u) is dict
+                    else 0x391 if z == -1 else 0x410 if z == -2 else 65 if tag == "a0" else 97)
             ch = chr(base + num % 17)
             return Frame(num, dur, d.size, "\n".join([ch * w] * h))
 
@@ -102,6 +107,7 @@ def classes():
     class ProbeArgs(ArgsNamespace, render_cls=Probe):
         tag: str = "a0"
         z: int = 0
+        u: object = None  # free-form user value; a4 / a5 put an unhashable one here
 
     class Other(Renderable):
         def _get_render_size_(self):
@@ -148,11 +154,19 @@ def decode_output(text: str):
 
 
 ARGS = {"a0": ("a0", 0), "a1": ("a1", 0), "a2": ("a0", -1), "a3": ("a0", -2)}
+# render-argument VALUES that cannot be hashed (C09 round 7): a fresh, equal object per call
+UNHASHABLE = {"a4": lambda: ("a0", 0, [1, [2, 3]]), "a5": lambda: ("a0", 0, {"k": [1], "m": {4}})}
+
+
+def args_fields(name: str):
+    """Field values of the probe's render-argument namespace for the spec's opaque value
+    ``name``; unhashable members are built anew on every call."""
+    return UNHASHABLE[name]() if name in UNHASHABLE else ARGS[name]
 
 
 def decode_letter(letter: str):
     o = ord(letter)
-    for name, base in (("a2", 0x391), ("a3", 0x410), ("a0", 65), ("a1", 97)):
+    for name, base in (("a4", 0x3B1), ("a5", 0x430), ("a2", 0x391), ("a3", 0x410), ("a0", 65), ("a1", 97)):
         if base <= o < base + 17:
             return name, o - base
     return "?", -1
@@ -309,7 +323,7 @@ class RealIter:
                 elif v == "child":
                     ra = RenderArgs(self.C["ChildProbe"], self.C["ChildArgs"](3))
                 else:
-                    ra = RenderArgs(self.C["Probe"], self.C["ProbeArgs"](*ARGS[v]))
+                    ra = RenderArgs(self.C["Probe"], self.C["ProbeArgs"](*args_fields(v)))
                 it.set_render_args(ra)
             elif name == "set_render_size":
                 from term_image.geometry import Size
